@@ -464,3 +464,15 @@ Theorem nil_output_agrees :
   forall r, finish true r = sconcatR oconcat (finish_stream true (box r)).
 Proof. exact nil_end_fixed. Qed.
 Print Assumptions nil_output_agrees.
+
+(* Finding F-C04f (fixed by d2e8680): a nil stored under an input key, read by a node whose input
+   type is an interface: the invoke form of the wrapper handed it on, the stream form failed. *)
+Theorem nil_under_input_key_v0_refuted :
+  inkey_value true ONil = Ok ONil /\ sconcat oconcat [inkey_chunk_v0 true ONil] = Err e_node.
+Proof. exact nil_under_key_v0. Qed.
+Print Assumptions nil_under_input_key_v0_refuted.
+
+Theorem nil_under_input_key_agrees :
+  forall iface v, agree (inkey_value iface v) (sconcat oconcat [inkey_chunk iface v]).
+Proof. exact nil_under_key_fixed. Qed.
+Print Assumptions nil_under_input_key_agrees.
